@@ -164,7 +164,11 @@ class Tr:
                 b, tb = self.expr(n.right.value, env)
                 if ta == 'mat' and tb == 'mat':
                     return f'(np_matmulT O {a} {b})', 'mat'
-            fail(n, 'only A @ B.T is supported')
+            a, ta = self.expr(n.left, env)
+            b, tb = self.expr(n.right, env)
+            if ta == 'mat' and tb == 'mat':
+                return f'(np_matmul O {a} {b})', 'mat'
+            fail(n, 'unsupported matrix product')
         if op == 'Pow':
             a, ta = self.expr(n.left, env)
             if ta == 'mat' and isinstance(n.right, ast.Constant) and n.right.value == 2:
@@ -552,7 +556,10 @@ def translate_slice(spec, tree):
             raise Unsupported(f"{spec['func']}: statement after which the inputs are taken not found exactly once: "
                               f"{spec['input_after']}")
         seq = seq[pos[0] + 1:]
+    out_exprs = [ast.parse(norm(t), mode='eval').body for t in spec.get('output_exprs', [])]
     needed = set(spec['outputs'])
+    for e in out_exprs:
+        needed |= names_read(e)
     selected = []
     for s in reversed(seq):
         st = names_stored(s)
@@ -617,16 +624,17 @@ def translate_slice(spec, tree):
     expected = spec.get('expected_uses')
     if expected is not None and sorted(uses) != sorted(expected):
         raise Unsupported(f"{spec['func']}: the index vectors are used differently than declared: {uses}")
-    ret = ast.Return(value=ast.Tuple(elts=[ast.Name(id=o, ctx=ast.Load()) for o in spec['outputs']], ctx=ast.Load()))
+    outs = [ast.Name(id=o, ctx=ast.Load()) for o in spec['outputs']] + out_exprs
+    ret = ast.Return(value=ast.Tuple(elts=outs, ctx=ast.Load()))
+    tr = Tr(tuple(spec['ret']) if len(outs) > 1 else spec['ret'][0])
+    if len(outs) == 1:
+        ret = ast.Return(value=outs[0])
     ast.fix_missing_locations(ret)
-    tr = Tr(tuple(spec['ret']) if len(spec['outputs']) > 1 else spec['ret'][0])
-    if len(spec['outputs']) == 1:
-        ret = ast.Return(value=ast.Name(id=spec['outputs'][0], ctx=ast.Load()))
     env = {name: ty for name, ty in spec['inputs'].values()}
     body = tr.block(selected + [ret], env)
     plist = list(dict.fromkeys(spec['inputs'].values()))
     text = (f"Definition {spec['name']} {binders(plist)} : "
-            f"{retty(tuple(spec['ret']) if len(spec['outputs']) > 1 else spec['ret'][0])} :=\n{ind(body)}.")
+            f"{retty(tuple(spec['ret']) if len(outs) > 1 else spec['ret'][0])} :=\n{ind(body)}.")
     return text, tr.asserts + [f'uses: {u}' for u in uses]
 
 
